@@ -62,7 +62,7 @@ class RunningTask:
         self._worker_process = process
         self._receiving_connection = receiving_connection
         self._task = task
-        self._start_time = time.time()
+        self._start_time = time.monotonic()
         _LOGGER.debug("Starting new worker for task %s.", task.task_id)
         process.start()
         sending_connection.close()
@@ -98,7 +98,7 @@ class RunningTask:
             True if the worker process was restarted successfully, False otherwise
         """
         # Calculate elapsed time
-        elapsed_time = time.time() - self._start_time
+        elapsed_time = time.monotonic() - self._start_time
         self._adjust_search_time_after_crash(elapsed_time)
 
         if self._task.configuration.stopping.maximum_search_time <= 0:
